@@ -72,8 +72,9 @@ def run(ctx):
     # "drawing depends only on the distribution's parameters and its own stream": the stream's generator is its own, also for a stream that
     # was copied together with its distribution (shared rule with C12)
     from . import c12
+    # ... and "equal parameters on equally seeded streams": the seed a stream is given is the seed it runs on (seed wiring of C12)
     for sc_ in ctx.prog.subclasses('StreamInterface'):
-        c12.r121_private_generator(ctx, sc_)
+        c12.check_stream(ctx, sc_)
     from ..statrules import memo_soundness
     memo_soundness(ctx, 'R14.9', ['distributions', 'utils'])
     from ..statrules import shared_class_state
